@@ -58,6 +58,19 @@ func VerifC01ExtLaws() {
 	vObserveStr("sa", sa)
 	vObserveStr("sb", sb)
 	vObserveStr("sc", sc)
+	if sys == Maven && vParam("kf_c01_maven_zero_dot_qualifier") == 1 {
+		// open finding (Maven 3.6 rules, reproduced faithfully): a zero component is trimmed before a
+		// '-' but not before a '.'-joined qualifier, which makes 1.0 < 1.0-pc < 1.0.cr < 1.0
+		for _, s := range []string{sa, sb, sc} {
+			for i := 0; i+2 < len(s); i++ {
+				zero := vAnd(s[i] == '0', s[i+1] == '.')
+				letter := vAnd('a' <= s[i+2], s[i+2] <= 'z')
+				if i == 0 || s[i-1] == '.' {
+					vAssume(vNot(vAnd(zero, letter)))
+				}
+			}
+		}
+	}
 	a, err := sys.Parse(sa)
 	if err != nil {
 		return
